@@ -48,11 +48,12 @@ inductive GridVals
 abbrev GridDict := List (String × GridVals)
 
 /-- `_check_param_grid`: every value must be a non-empty sequence (all failures are ValueError) -/
+def badVals : GridVals → Bool
+  | .notSeq => true
+  | .seq vs => vs.isEmpty
+
 def checkParamGrid (grid : List GridDict) : Except Err Unit :=
-  if grid.any (fun d => d.any (fun kv =>
-      match kv.2 with
-      | .notSeq => true
-      | .seq vs => vs.isEmpty)) then .error .value else .ok ()
+  if grid.any (fun d => d.any (fun kv => badVals kv.2)) then .error .value else .ok ()
 
 def valsOf : GridVals → List Val
   | .seq vs => vs
@@ -180,19 +181,24 @@ structure SearchResult where
 def mkRows (cands : List Params) (means : List Score) (ranks : List (Option Nat)) : List Row :=
   (cands.zip (means.zip ranks)).map (fun t => ⟨t.1, t.2.1, t.2.2⟩)
 
-def search (cands : List Params) (ev : Params → EvalOut) (gib : Bool) : Except Err SearchResult :=
+/-- the search with the ranking direction `asc` made explicit -/
+def searchDir (cands : List Params) (ev : Params → EvalOut) (asc : Bool) : Except Err SearchResult :=
   match evalAll ev cands with
   | .error e => .error e
   | .ok outs =>
     if outs.isEmpty then .error .value          -- "No fits were performed"
     else
       let means := outs.map colMean
-      let ranks := rank2 (rankAscending gib) means
+      let ranks := rank2 asc means
       match argminFirst ranks with
       | none => .error .key                       -- argmin = −1, `results.loc[-1, …]`
       | some (i, _) =>
         .ok { rows := mkRows cands means ranks, bestIndex := i,
               bestScore := (means[i]?).getD none, bestParams := (cands[i]?).getD [] }
+
+/-- the search as coded: the direction comes from the metric through `rankAscending` -/
+def search (cands : List Params) (ev : Params → EvalOut) (gib : Bool) : Except Err SearchResult :=
+  searchDir cands ev (rankAscending gib)
 
 /-! ## The base forecaster as an abstract machine, and the tuner around it -/
 
@@ -266,6 +272,11 @@ def fitTuner {S Op V A C Y : Type} (m : Machine S Op V A) (cfg : Config C)
         | .ok s => ({ isFitted := true, best := some s, result := some r }, .ok ())
       else ({ isFitted := true, best := some fresh, result := some r }, .ok ())
 
+/-- what the caller sees: the delegate's exception, its value, or `self` (for `update`) -/
+def wrapOut {Op V : Type} (c : Call Op) : Except Err V → Except Err (TVal V)
+  | .error e => .error e
+  | .ok v => .ok (if c.retSelf then .self else .val v)
+
 /-- one later call on the tuner -/
 def stepTuner {S Op V A C : Type} (m : Machine S Op V A) (cfg : Config C) (st : TState S) (c : Call Op) :
     TState S × Except Err (TVal V) :=
@@ -277,25 +288,20 @@ def stepTuner {S Op V A C : Type} (m : Machine S Op V A) (cfg : Config C) (st : 
       if c.named && !cfg.refit then (st, .error .notFitted)       -- "initialized with refit=False"
       else if c.named && !m.fitted s then (st, .error .notFitted) -- best_forecaster_.check_is_fitted()
       else
-        let (s', out) := m.step s c.op
-        ({ st with best := some s' },
-          match out with
-          | .error e => .error e
-          | .ok v => .ok (if c.retSelf then .self else .val v))
+        let r := m.step s c.op
+        ({ st with best := some r.1 }, wrapOut c r.2)
 
 def runTuner {S Op V A C : Type} (m : Machine S Op V A) (cfg : Config C) :
     TState S → List (Call Op) → List (Except Err (TVal V))
   | _, [] => []
-  | st, c :: cs => let (st', o) := stepTuner m cfg st c; o :: runTuner m cfg st' cs
+  | st, c :: cs => let r := stepTuner m cfg st c; r.2 :: runTuner m cfg r.1 cs
 
 /-- the same calls made directly on a forecaster -/
 def runMachine {S Op V A : Type} (m : Machine S Op V A) : S → List (Call Op) → List (Except Err (TVal V))
   | _, [] => []
   | s, c :: cs =>
-    let (s', out) := m.step s c.direct
-    (match out with
-      | .error e => .error e
-      | .ok v => .ok (if c.retSelf then .self else .val v)) :: runMachine m s' cs
+    let r := m.step s c.direct
+    wrapOut c r.2 :: runMachine m r.1 cs
 
 /-! ## The splits every candidate is evaluated on (shared model of C01) -/
 
